@@ -3035,7 +3035,7 @@ func (c S3ApiController) DeleteObjects(ctx *fiber.Ctx) error {
 	// Keys come from the request body, so the URL checks have not seen
 	// them: "." and ".." elements would be resolved by the backend
 	for _, obj := range dObj.Objects {
-		if utils.HasDotSegment(getstring(obj.Key)) || strings.Contains(getstring(obj.VersionId), "/") {
+		if utils.IsUnsafeKey(getstring(obj.Key)) || strings.Contains(getstring(obj.VersionId), "/") {
 			return SendResponse(ctx, s3err.GetAPIError(s3err.ErrInvalidRequest),
 				&MetaOpts{
 					Logger:      c.logger,
